@@ -8,10 +8,17 @@
 """
 import sys, os, subprocess, json, shutil, re, time
 
-pid, k = sys.argv[1], sys.argv[2]
-extra = sys.argv[3:]
-WT = "/tmp/mut/%s" % pid
-OUT = "/tmp/mut/out_%s" % pid
+args = sys.argv[1:]
+src_name = None
+if "--from" in args:
+    # mutations produced by an area-focused agent: --from areaA reads /tmp/mut/areaA and /tmp/mut/out_areaA
+    i = args.index("--from")
+    src_name = args[i + 1]
+    del args[i:i + 2]
+pid, k = args[0], args[1]
+extra = args[2:]
+WT = "/tmp/mut/%s" % (src_name or pid)
+OUT = "/tmp/mut/out_%s" % (src_name or pid)
 diff = os.path.join(OUT, "mut%s.diff" % k)
 demo = os.path.join(OUT, "demo%s.rs" % k)
 meta = json.load(open(os.path.join(OUT, "meta%s.json" % k)))
@@ -72,7 +79,7 @@ if confirmed:
     res["checks"] = checks
     res["detected_by"] = [c for c, v in checks.items() if v["exit"] != 0]
 # C. store
-d = "/verif/seeded/%s-%s" % (pid, k)
+d = "/verif/seeded/%s-%s" % (pid, (src_name + k) if src_name else k)
 os.makedirs(d, exist_ok=True)
 shutil.copy(os.path.join(OUT, "mut%s.rebased.diff" % k) if res.get("rebased") else diff, os.path.join(d, "patch.diff"))
 shutil.copy(demo, os.path.join(d, "demo.rs"))
